@@ -12,7 +12,7 @@ REQUIRED_PROBES = [
     ("faults", "sink_fault_position", "between_fields_or_closer"),
     ("probes", "newline_at_chunk_end_pretty"), ("probes", "newline_mid_chunk_pretty"), ("probes", "nested_builder_depth_ge2"),
     ("probes", "non_exhaustive_closer_pretty"), ("probes", "non_exhaustive_closer_plain"), ("probes", "empty_name_one_tuple"),
-    ("probes", "zero_field_builder"), ("probes", "options_echo_nondefault"), ("probes", "hex_spec"), ("probes", "nested_context"),
+    ("probes", "zero_field_builder"), ("probes", "options_echo_nondefault"), ("probes", "hex_spec"), ("probes", "nested_context"), ("probes", "ill_behaved_party_continued_after_error"),
 ]
 
 
@@ -242,7 +242,7 @@ def do_check(tier, seed, t0):
     }
     assumptions = [
         "seeded sampling, not enumeration: a clean batch is evidence, not proof",
-        "field parties are well-behaved (propagate the first error), as fmt's contract requires",
+        "most field parties propagate the first error, as fmt's contract asks; a seeded share is ill-behaved on purpose (keeps writing after a failed step, returns the error late or swallows it) — std and derive_more get the same party",
         "sink contents under a *field* failure are compared too, which presumes streaming output (derive_more is no_std/no-alloc, so it cannot buffer)",
         "type vocabulary = systematic shapes (all skip subsets up to 3 fields) + seeded random corpus; shapes outside it are not explored",
         "known finding KF1 is excused only when derive_more's output equals the reference adjusted by its defect model byte for byte",
